@@ -136,7 +136,8 @@ def run_property(prop, rule_mod, repo='/repo', tier='quick', replay=None):
     try:
         ctx = Ctx(prop, repo, tier)
         rule_mod.run(ctx)
-        if len(ctx.obs) < getattr(rule_mod, 'FLOOR', 1):
+        # the floor guards against a vacuous PASS; a violation that was found stands whatever the count
+        if len(ctx.obs) < (getattr(ctx, 'floor_override', None) or getattr(rule_mod, 'FLOOR', 1)) and all(o.ok for o in ctx.obs):
             raise AnalysisError('rule instance floor not met: %d obligations < floor %d (a rule matching too few '
                                 'sites would pass vacuously)' % (len(ctx.obs), rule_mod.FLOOR))
     except AnalysisError as ex:
